@@ -719,6 +719,7 @@ func TestVerifC15Child(t *testing.T) {
 	}
 	log.SetOutput(io.Discard)
 	debug.SetGCPercent(-1)
+	debug.SetMemoryLimit(3 << 30)
 	shard, _ := strconv.Atoi(os.Getenv("C15_SHARD"))
 	nshard, _ := strconv.Atoi(os.Getenv("C15_NSHARD"))
 	from, _ := strconv.Atoi(os.Getenv("C15_FROM"))
